@@ -18,10 +18,10 @@ CHECKS = {
             "Each generated noisy stream (garbage tokens in the gaps, a value cut off by the end of the input, malformed / unrepresentable number tokens, strings that look like JSON syntax; 13 pipelines incl. --only-objects-and-arrays and &index readers; the stream also as a file with a long / non-ASCII name or inside a nested directory) is run under all four policies and compared with the run on the noise-free stream; panic policy additionally bounded by bytes pulled from the instrumented reader.",
             "Garbage tokens contain no CR/LF and no LF directly follows a cut-off value, so an error: line is one line; the text and position of error lines are not demanded (the property does not fix them).", "5 C06"),
     "C16": ("fault_enumeration", "runtime monitoring with fault injection: hard read error at every input offset and hard write error at every output offset of each generated run, observed at the instrumented Read/Write boundary",
-            "For every generated input the fault point ranges over all byte offsets of the input (read) and of the fault-free output (write, also stderr), each a real execution; the oracle demands Err, no panic, no read after the error and prefix-of-fault-free output; error kinds vary with the offset; write faults are also transient (one failing call, then the sink takes bytes again: no write call may follow) and also hit runs whose input is a file in a directory argument.",
+            "For every generated input the fault point ranges over all byte offsets of the input (read) and of the fault-free output (write, also stderr), each a real execution; the oracle demands Err, no panic, no read after the error and prefix-of-fault-free output; error kinds vary with the offset; write faults are also transient (one failing call, then the sink takes bytes again: no write call may follow) and also hit runs whose input is a file in a directory argument; read faults are also transient, and files whose read fails (links to /proc/self/mem, named directly or met inside a directory, also under names that are not UTF-8) must end the run with an error.",
             "Inputs, pipelines and policies are sampled (exhaustive over offsets, not over inputs); file read faults are not injectable at this boundary.", "5 C16"),
     "C17": ("exploration", "runtime monitoring: differential oracle over delivery forms (read schedules with Interrupted, stdin vs file, 1-4 files) plus a span model from the generator for the input-context selectors",
-            "Each generated stream is delivered in five forms and as file partitions (also cut inside a value); rows carrying all seven input-context selectors are compared across forms and against byte spans known to the generator; selectors also in their lenient spellings and each alone; string literals with raw control characters; file names with commas, blanks, leading dots, in sub-directories, named twice.",
+            "Each generated stream is delivered in five forms and as file partitions (also cut inside a value); rows carrying all seven input-context selectors are compared across forms and against byte spans known to the generator; selectors also in their lenient spellings and each alone; string literals with raw control characters; file names with commas, blanks, leading dots, in sub-directories, named twice; a directory of 300 files (the driver may hold 256 descriptors), some with names that are not UTF-8; directories without files (stdin is no fallback); a file behind a linked directory.",
             "(line, column) is mapped to a byte offset as line start + column - 1; chunking inside BufReader<File> cannot be controlled from the boundary.", "5 C17"),
     "C08": ("exploration", "runtime monitoring: metamorphic/differential oracle (limited run = slice of the unlimited run of the same build), exhaustive over all small streams",
             "Every stream of length <= 4 (quick) / 5 (thorough) over 4 keys x all S,T in 0..6 x 24 pipelines is executed for real and compared with the slice of the unlimited run; random histories up to 40 rows add unique/filter/split/select; a share of all units delivers the records as files instead of stdin.",
@@ -33,13 +33,13 @@ CHECKS = {
             "Sequences over a universe of equal spellings are run with/without --unique; pairwise equality of the distinct rows is observed in a companion run of (= a b) and must agree with the model; the unique run must keep exactly first occurrences.",
             "Rows are identified by their printed one-line text; -0, member-order permutations and |n| >= 2^53 are outside the property's domain.", "5 C10"),
     "C14": ("exploration", "runtime monitoring at the read boundary: bytes pulled from an instrumented endless reader / FIFO (bounded-progress restatement of termination)",
-            "jawk::go is given an input that never ends; the monitor counts bytes pulled and fails the run if the reader's cap is reached or more than 64 KiB are pulled past the value that produces row S+T (located by finite unlimited runs of the same build); tails either keep qualifying or never produce a row again (filtered out / duplicates), values separated by LF, CRLF, space, tab or nothing; the finite part also as a file (plain, or in a nested directory of a directory argument) in front of the endless FIFO, or in front of a FIFO nobody writes to (which must not be opened); a filter that triggers a process outliving the run.",
+            "jawk::go is given an input that never ends; the monitor counts bytes pulled and fails the run if the reader's cap is reached or more than 64 KiB are pulled past the value that produces row S+T (located by finite unlimited runs of the same build); tails either keep qualifying or never produce a row again (filtered out / duplicates), values separated by LF, CRLF, space, tab or nothing; the finite part also as a file (plain, or in a nested directory of a directory argument) in front of the endless FIFO, or in front of a FIFO nobody writes to (which must not be opened); a filter that triggers a process outliving the run; a 1.5 MB file of which the first rows suffice (bytes read by the process are metered); --take 0 on a stream that is open but silent.",
             "Termination on unbounded input is not decidable by a finite run; it is restated as 'returns Ok having pulled a bounded number of bytes'. Decided in bytes, never in wall-clock time (the 30 s watchdog only yields inconclusive).", "5 C14"),
     "C18": ("exploration", "runtime monitoring at the boundary: Result, bytes written to stdout, stdin-factory invocations and FIFO-open detection for single-fault corruptions of valid configurations",
             "Valid generated configurations (checked to be accepted) are corrupted by exactly one operator in one option position; the real parser/validator runs and the monitor observes that nothing was written, stdin was never requested and an input FIFO was never opened before the error.",
             "Each corruption is invalid by the documented grammar (pinned function table for arities); clap rejections count as early rejections.", "5 C18"),
     "C20": ("exploration", "runtime monitoring of the real executable as a child process (stdout/stderr/exit status), differential against the in-process run of the same build; failing sinks (closed pipe, /dev/full)",
-            "The release binary built from the working tree is spawned on generated inputs under all policies, valid and invalid configurations and three kinds of stdout; streams and exit status are compared with the in-process reference and the exit status also with the documented outcome (a valid configuration fails only under --on-error=panic on malformed input); inputs that cannot be read (stdin = a directory, missing / unreadable file, UNIX socket) must fail with a message, readable inputs reached through links and nested directories must succeed with the plain file's rows; rows of 3-5 KB in 20 % of the units.",
+            "The release binary built from the working tree is spawned on generated inputs under all policies, valid and invalid configurations and three kinds of stdout; streams and exit status are compared with the in-process reference and the exit status also with the documented outcome (a valid configuration fails only under --on-error=panic on malformed input); inputs that cannot be read (stdin = a directory, missing / unreadable file, UNIX socket) must fail with a message, readable inputs reached through links and nested directories must succeed with the plain file's rows; rows of 3-5 KB in 20 % of the units; values typed on a pseudo-terminal (nothing typed after Ctrl-D is read); stdin as a file positioned behind a header.",
             "The in-process run of the same library is the reference for stream contents; process-level behaviour (which fd, exit status, lost output) is decided here, success/failure also against the documented rule.", "5 C20"),
     "C05": ("exploration", "runtime monitoring: panic hook + catch_unwind + process-death + watchdog-with-isolated-confirmation around the real jawk::go; exhaustive small byte strings in the driver; ASan / valgrind / Miri shards in the thorough tier",
             "Exhaustive over all byte strings up to length 4 (quick, plus a 1/8 shard of length 5) or 6 (thorough) over the 24-byte JSON alphabet; seeded mutations of valid streams up to 4 KiB; generated (50 % ill-typed) expressions with multi-byte characters at chosen offsets and boundary numeric arguments in every option position; a boundary matrix (numeric and number-as-string functions over 23 extreme numbers / 24 extreme decimal strings, string functions over empty and one-character strings); expressions nested 20-64 deep built from one wrapper; exec/trigger with a fixed list of harmless commands (children that fill either pipe, die by signal, outlive the run); release and debug (overflow-checking) builds; driver processes under a 6 GiB address-space cap so that unbounded allocation ends as an attributed abort.",
